@@ -3,6 +3,7 @@
 package loadbalancer
 
 import (
+	"unsafe"
 	"reflect"
 	"runtime"
 	"bufio"
@@ -377,6 +378,38 @@ func (v *vLB) op(w []string) string {
 		}
 		if err := v.lb.SetStrategy(w[1]); err != nil {
 			return "err"
+		}
+		return "ok"
+	case "rrseek":
+		// rrseek <k>: the round-robin rotation counter as it stands after k more picks (the state a
+		// long-running process reaches; the field is advanced in place, whatever its width)
+		if len(w) != 2 {
+			return "bad-op"
+		}
+		k, err := strconv.ParseUint(w[1], 10, 64)
+		if err != nil {
+			return "bad-op"
+		}
+		if rr, ok := v.lb.strategy.(*RoundRobinStrategy); ok {
+			f := reflect.ValueOf(rr).Elem().FieldByName("current")
+			if !f.IsValid() {
+				return "no-counter"
+			}
+			p := unsafe.Pointer(f.UnsafeAddr())
+			switch f.Kind() {
+			case reflect.Uint64:
+				atomic.AddUint64((*uint64)(p), k)
+			case reflect.Uint32:
+				atomic.AddUint32((*uint32)(p), uint32(k))
+			case reflect.Int64:
+				atomic.AddInt64((*int64)(p), int64(k))
+			case reflect.Int32:
+				atomic.AddInt32((*int32)(p), int32(k))
+			case reflect.Int, reflect.Uint, reflect.Uintptr:
+				atomic.AddUintptr((*uintptr)(p), uintptr(k))
+			default:
+				return "no-counter"
+			}
 		}
 		return "ok"
 	case "pickconc":
